@@ -1,8 +1,12 @@
 (* C13 — accessors are pure; Reset and Take return a pristine buffer.
-   Abstract (list-level) view of the Buffer: the aliasing of the backing array
-   by struct copies is validated by the correspondence runs (state before and
-   after every accessor, strings re-read at the end), see DESIGN.md. *)
+   Two levels.  List level (Buffer.v): accessors leave the state unchanged, Len law, Take/Reset
+   give the initial state.  Memory level (BufMem.v, below): a struct copy shares the backing
+   array; the accessors finalize a copy and write only beyond the original's length or into new
+   arrays; the string returned by TakeRedactableString aliases an array no later call writes.
+   The memory-level model is compared with the implementation after every call (bytes, hidden
+   state AND capacity). *)
 From Redact Require Import Bytes Tokens Buffer Ops BufInv BufferThm.
+From Redact Require Import BufMem BufMemP.
 Import List ListNotations.
 
 Definition accessor (o : op) : Prop :=
@@ -36,6 +40,44 @@ Proof.
   destruct (take (run ops)) as [r b']. exact Ht.
 Qed.
 Print Assumptions C13_pristine.
+
+(* MEMORY LEVEL (BufMem.v: heap of arrays, a struct is (array, len, validUntil, mode, markerOpen),
+   copying a struct shares the array, slice expressions are checked).  The accessors finalize a
+   COPY of the struct: the heap changes (a closing marker appended into the spare capacity, or a
+   new array), the struct does not, and what it denotes - bytes and hidden state - is unchanged,
+   in every state satisfying the memory invariant, for every capacity decision of the runtime. *)
+Theorem C13_accessor_pure_in_memory : forall ecap h c o, cinv h c ->
+  (o = OLen \/ o = OCap \/ o = OStr \/ o = ORS \/ o = ORB \/ o = OGetMode) ->
+  exists h' co, cstep ecap h c o = Some (h', c, co) /\ cabs h' c = cabs h c /\ cinv h' c.
+Proof. exact accessor_pure_mem. Qed.
+Print Assumptions C13_accessor_pure_in_memory.
+
+(* every method does to the bytes the struct denotes what the list-level model says *)
+Theorem C13_memory_refines_lists : forall ops h c, cinv h c ->
+  exists h' c', crun h c ops = Some (h', c') /\ cabs h' c' = run_from (cabs h c) (map fst ops) /\ cinv h' c'.
+Proof. exact crun_refines. Qed.
+Print Assumptions C13_memory_refines_lists.
+
+(* the string returned by TakeRedactableString shares the array; no later call writes it *)
+Theorem C13_taken_string_is_never_modified : forall ecap0 h0 c0 h c id n, cinv h0 c0 ->
+  cstep ecap0 h0 c0 OTake = Some (h, c, CAlias (Some id) n) ->
+  forall ops h' c', crun h c ops = Some (h', c') -> arr h' id = arr h id.
+Proof. exact taken_string_immutable. Qed.
+Print Assumptions C13_taken_string_is_never_modified.
+
+(* Non-vacuity: an open envelope with pending bytes, RedactableString() appends the closing marker
+   into the spare capacity of the SHARED array; the struct still denotes the same bytes *)
+Example C13_memory_nonvacuous :
+  match crun [] cinit [(OWrite [97;98]%N, 0%nat)] with
+  | Some (h, c) =>
+    cinv h c /\
+    match cstep 0 h c ORS with
+    | Some (h', c', CR r) => h' <> h /\ c' = c /\ cabs h' c = cabs h c /\ r = [226;128;185;97;98;226;128;186]%N
+    | _ => False
+    end
+  | None => False
+  end.
+Proof. vm_compute. repeat split; try lia; discriminate. Qed.
 
 Example C13_nonvacuous :
   let ops := [OWrite [97; 226]; OLen; ORS; OStr; OWrite [128; 185]; OGetMode]%N in
